@@ -65,7 +65,8 @@ def limits(rep, prog, f, b):
                "edges dominating the Argon2 call imply %s in [%s, %s]; libsodium accepts [%s, %s]" % (pname, lo, hi, wl, wh), loc=c.loc())
     # (t, m) operands derive from convert_costs, lanes == 1
     ax = call_arg_exprs(c)
-    conv = [x for x in f.calls() if x.rpath.endswith("convert_costs")]
+    conv = [x for x in f.calls() if x.is_local and not x.dest["p"] and all(
+        x.dest["l"] in f.backward_slice(operand_locals(c.args[i])) for i in (0, 1)) and x.bb != c.bb]
     ok = bool(conv) and all(conv[0].dest["l"] in f.backward_slice(operand_locals(c.args[i])) for i in (0, 1))
     rep.ob("PROV", f.path + "|(t,m) from convert_costs", ok, "t_cost and m_cost operands derive from convert_costs(opslimit, memlimit)", loc=c.loc())
     if conv:
@@ -80,9 +81,18 @@ def limits(rep, prog, f, b):
 
 
 def context_guards(rep, prog):
-    fs = [f for f in prog.fns if f.path.endswith("Argon2Context::<'a>::new") or f.path.endswith("Argon2Context::new")]
-    if not fs:
-        fs = [f for f in prog.fns if "Argon2Context" in f.path and f.name == "new"]
+    # the validation function: reachable from crypto_pwhash, returns Result, and compares the output
+    # length, salt length, lanes, memory and passes with constants (>= 8 range comparisons on parameters)
+    roots = prog.by_path.get("classic::crypto_pwhash::crypto_pwhash", [])
+    fs = []
+    for k in prog.reach_fns(roots):
+        g = prog.by_key[k]
+        if g.locals[0].get("path") != "std::result::Result" or g.argc < 6:
+            continue
+        ef_ = edge_facts(g, cm.view_info)
+        cmp_params = {str(l) for fs_ in ef_.values() for op, l, r in fs_ if isinstance(l, tuple) and l[0] in ("len", "local")}
+        if len(cmp_params) >= 5:
+            fs.append(g)
     if not fs:
         rep.violation("ANCHOR", "Argon2Context::new", "Argon2 parameter validation function not found")
         return
@@ -103,7 +113,7 @@ def context_guards(rep, prog):
                    "edges dominating the Ok exit imply %s >= %s (upper bound %s)" % (name, lo, hi), loc=f.loc(b))
     rep.floor("Ok exits of the Argon2 context constructor", nok, 1)
     # argon2_hash must go through the constructor with `?` before filling memory
-    for g in prog.find("argon2::argon2_hash"):
+    for g in prog.callers(f):
         nc = [c for c in g.calls() if f in prog.callee_fns(c)]
         fill = [c for c in g.calls() if "fill" in c.rpath and c.is_local]
         from ..engines import OK, ERR
@@ -116,7 +126,16 @@ def context_guards(rep, prog):
 
 
 def convert(rep, prog):
-    for f in prog.find("classic::crypto_pwhash::convert_costs"):
+    convs = set()
+    for r_ in prog.by_path.get("classic::crypto_pwhash::crypto_pwhash", []):
+        a2 = [c for c in r_.calls() if c.rpath.endswith("argon2::argon2_hash")]
+        for c in r_.calls():
+            if c.is_local and a2 and c.dest["l"] in r_.backward_slice(operand_locals(a2[0].args[0])) and c.dest["l"] in r_.backward_slice(operand_locals(a2[0].args[1])):
+                for t_ in prog.callee_fns(c):
+                    convs.add(t_.key)
+    if not convs:
+        rep.violation("ANCHOR", "cost conversion", "no crate function feeds both the t and m operands of the Argon2 call")
+    for f in [prog.by_key[k] for k in convs]:
         e = expr_of_local(f, 0)
         ok = False
         txt = repr(e)
@@ -133,9 +152,17 @@ def convert(rep, prog):
 
 
 def h0(rep, prog):
-    fs = prog.find("argon2::argon2_initial_hash")
+    # H0: the function below crypto_pwhash that initialises BLAKE2b and absorbs >= 8 little-endian integers
+    roots = prog.by_path.get("classic::crypto_pwhash::crypto_pwhash", [])
+    fs = []
+    for k in prog.reach_fns(roots):
+        g = prog.by_key[k]
+        ups_ = [c for c in g.calls() if c.rpath.endswith("::State::update") and "blake2b" in c.rpath]
+        les_ = [c for c in g.calls() if c.path.endswith("to_le_bytes")]
+        if len(ups_) >= 8 and len(les_) >= 8:
+            fs.append(g)
     if not fs:
-        rep.violation("ANCHOR", "argon2_initial_hash", "H0 function not found")
+        rep.violation("ANCHOR", "H0", "no function below crypto_pwhash absorbs the Argon2 parameters into BLAKE2b")
         return
     f = fs[0]
     ups = [c for c in f.calls() if c.rpath.endswith("::State::update") and "blake2b" in c.rpath]
